@@ -302,6 +302,16 @@ def run(ctx):
         if r.get("raise_at") is not None or i % 3 != 1 or r["cls"] == "SSE" or r.get("pause"):
             continue
         at_once(ctx, r, method, hdrs, edges)
+    from vf import inflight
+    with inflight.preemptor() as pre:
+        n = 0
+        for i, (r, method, hdrs) in enumerate(todo):
+            if r.get("raise_at") is not None or r.get("raise") or i % 3 != 2 or r["cls"] in ("SSE", "Stream") or r.get("pause"):
+                continue
+            first_calls_preempted(ctx, pre, r, method, hdrs)
+            n += 1
+            if n >= ctx.scale(40, 2000):
+                break
     # ---- the body producer of a file response is the file: it vanishes (or is replaced by a shorter one) between the
     #      construction of the response and the request; whatever is emitted must still be a legal prefix
     import shutil
@@ -369,6 +379,28 @@ def at_once(ctx, r, method, hdrs, edges):
         ctx.case((iface, "at-once", repr(r), method, repr(hdrs)))
 
 
+def first_calls_preempted(ctx, pre, r, method, hdrs):
+    """two server threads make the FIRST two calls of a new response object (a thread switch placed between two library lines of the
+    first call): each gets the answer it gets from an object of its own"""
+    from baize import asgi, wsgi
+    from vf import inflight
+    if r["cls"] == "Stream":
+        r = dict(r, reiterable=True)
+    if any(k.lower() == "range" and "," in v for k, v in hdrs):
+        return  # (several ranges are sent with a boundary drawn at random: two runs never agree byte for byte)
+    for iface, ns in (("wsgi", wsgi), ("asgi", asgi)):
+        def fresh(ns=ns):
+            random.seed(77)
+            return recipes.response_from(ns, r)
+        try:
+            fresh()
+        except Exception:
+            continue
+        reqs = [drivers.Req(method=method, headers=hdrs), drivers.Req(method=method, headers=hdrs + [("X-Second", "1")])]
+        inflight.check_preempted(ctx, pre, iface, None, reqs[0], reqs[1], "new-response-object", {"recipe": r, "method": method, "headers": hdrs, "first_calls_preempted": True},
+                                 max_points=16, fresh=fresh)
+
+
 def replay(ctx, case):
     contracts.arm_list_headers()
     r = case["recipe"]
@@ -380,7 +412,11 @@ def replay(ctx, case):
         r["path"] = [f for f in files if os.path.basename(f) == os.path.basename(r["path"])][0]
     edges = Counter()
     hdrs = [tuple(h) for h in case["headers"]]
-    if case.get("connections_at_once"):
+    if case.get("first_calls_preempted"):
+        from vf import inflight
+        with inflight.preemptor() as pre:
+            first_calls_preempted(ctx, pre, r, case["method"], hdrs)
+    elif case.get("connections_at_once"):
         at_once(ctx, r, case["method"], hdrs, edges)
     elif case["iface"] == "wsgi":
         run_wsgi_case(ctx, r, case["method"], hdrs, edges)
